@@ -32,7 +32,13 @@ for name in names:
                 if os.path.exists(rp):
                     shutil.copyfile(rp, os.path.join(d, "replay-%s.json" % p))
             print(name, p, "rc=%d" % c.returncode, "DETECTED" if vio else "MISSED", "(concrete input)" if res[p]["concrete"] else "", res[p]["summary"][:160])
-        json.dump({"seeded": name, "ran_at": time.strftime("%Y-%m-%dT%H:%M:%SZ", time.gmtime()), "results": res}, open(os.path.join(d, "result.json"), "w"), indent=1)
+        rp = os.path.join(d, "result.json")
+        hist = []
+        if os.path.exists(rp):
+            old = json.load(open(rp))
+            hist = old.get("history", [])
+            hist.append({"ran_at": old.get("ran_at"), "outcome": {p: ("detected-concrete" if r.get("concrete") else "detected" if r.get("violations") else "missed") for p, r in old.get("results", {}).items()}})
+        json.dump({"seeded": name, "ran_at": time.strftime("%Y-%m-%dT%H:%M:%SZ", time.gmtime()), "results": res, "history": hist}, open(rp, "w"), indent=1)
     finally:
         subprocess.run(["git", "-C", "/repo", "worktree", "remove", "--force", wt])
         # the run regenerated lean/D2V/Gen from the mutated tree: regenerate from /repo
